@@ -395,6 +395,7 @@ def run(ctx):
     int_truncation_probe(ctx)
     mgs_engine(ctx)
     msc_engine(ctx)
+    import gencheck_misc; gencheck_misc.run_generated_c15(ctx)   # generated-model tie: MinSetCover._encode_set_cover regenerated from source (coq/gen_proofs/EncMsc*.v)
 
 
 def replay(ctx, body):
